@@ -90,6 +90,11 @@ func pairCase(c map[string]interface{}) map[string]interface{} {
 		for k, v := range grpcOps(iters) {
 			ops[k] = v
 		}
+		if len(Str(c, "a")) > 7 && Str(c, "a")[:7] == "Galaxy." {
+			for k, v := range galaxyOps() {
+				ops[k] = v
+			}
+		}
 		if len(Str(c, "a")) > 13 && Str(c, "a")[:13] == "PolicyManager" {
 			for k, v := range policyOps() {
 				ops[k] = v
